@@ -35,7 +35,6 @@ NotesOK(r, f) ==
         allowed == R!Pairs(obs[r], {f} \cup recs'[r].inv)
     IN /\ required \subseteq logged
        /\ logged \subseteq allowed
-       /\ (out'.notes = {}) => logged = {}        \* nothing changed: nobody is told
 
 TrReset == /\ IsEvent("Reset")
            /\ recs' = [r \in Recs |-> IF r = 1 THEN R!EmptyRec ELSE R!NoRec]
